@@ -26,6 +26,8 @@ EXPLANATION = (
     'exp_decay_factor_averaging is normalised to min(1 - 1/s, cap) with s = 1 at step 0, negative steps and cap <= 0 '
     'raising.  Monotonicity follows from the decided form and is not separately decided.')
 
+NOT_DECIDED = 'monotonicity as a theorem (follows from the decided form)'
+
 
 def _hp_names(ctx: Ctx) -> tuple[list[str], set[str]]:
     """Hyper-parameters = properties of BaseKFACPreconditioner of the callable-or-constant form; int-typed subset."""
